@@ -34,7 +34,7 @@ def gen_specs(rng, thorough):
     specs = []
     ops_live = [['wait'], ['terminate', False], ['terminate', True], ['is_alive'], ['close']]
     for kind in ('thread', 'process', 'remote'):
-        behs = ['coop', 'swallow'] if kind == 'thread' else ['coop', 'swallow', 'sleep', 'hog', 'stopped']
+        behs = ['coop', 'swallow'] if kind == 'thread' else ['coop', 'swallow', 'sleep', 'hog', 'stopped', 'stops']
         for beh in behs:
             for timeout in (0, 0.3):
                 for persistent in ((False, True) if thorough else (False,)):
@@ -91,7 +91,7 @@ def check(ctx, res):
             gone = (st in (None, 'Z', 'X')) if kind != 'thread' else (c.get('thread_alive') is False or dead)
             if ret is True and not gone and beh != 'notrun':
                 ctx.fail(f'untruthful-true:{tag}:{name}', f'{kind} worker ({beh}): {name}({timeout}) returned True but the child is still there (state {st})', d)
-            if ret is False and st is None and kind != 'thread' and beh in ('sleep', 'hog', 'stopped'):
+            if ret is False and st is None and kind != 'thread' and beh in ('sleep', 'hog', 'stopped', 'stops'):
                 ctx.fail(f'untruthful-false:{tag}:{name}', f'{kind} worker ({beh}): {name}({timeout}) returned False but the child is gone', d)
             if dead and (ret is not True or dt > 1.0):
                 ctx.fail(f'dead-not-immediate:{kind}:{beh}:{name}', f'{kind} worker ({beh}): {name}({timeout}) returned {ret} after {dt} s on a dead/never-run worker', d)
@@ -109,7 +109,7 @@ def main(ctx: Ctx):
         'a stopped (SIGSTOP) child keeps SIGTERM pending - whether terminate(force=True) still has to kill it is exactly what is checked',
         'each scenario runs in its own process: a forced terminate on the parent side may SIGTERM the caller by design',
     ]
-    ctx.cov['rule'] = ('(kind, target behaviour in {cooperative, swallows Exception, sleep(1000), GIL held by a C call, SIGSTOPped}, timeout in {0, 0.3}, history of <=5 calls of wait/terminate(force)/is_alive/close) on live workers; '
+    ctx.cov['rule'] = ('(kind, target behaviour in {cooperative, swallows Exception, sleep(1000), GIL held by a C call, SIGSTOPped before the call, stops itself (SIGSTOP) when asked to terminate}, timeout in {0, 0.3}, history of <=5 calls of wait/terminate(force)/is_alive/close) on live workers; '
                        'all pairs + sampled longer histories on finished and never-run workers; negative timeouts; non-trivial = uncooperative behaviour or history on a dead worker; distinct by spec')
     import translate
     errors, _ = translate.regenerate_blocking()      # T-block: Gen/Blocking.lean from /repo's current source
